@@ -25,4 +25,4 @@ META = dict(
           "'eventually' is made an explicit event (retry round, back-off expiry) rather than a fairness assumption over wall-clock time."),
     technique="Lean 4 proof (owed-set invariant by induction over histories; delivery by a retry round) + differential correspondence of the peer-store bookkeeping on real nodes",
 )
-ENGINES = [{"name": "repl", "path": "harness/repl", "serves_properties": ["C15"], "kind_free_text": "two libp2p nodes, generated write/outage/patch/retry histories, per-step comparison of the peer-store retry bookkeeping with drv repl, final B = A"}]
+ENGINES = [{"name": "repl", "path": "harness/repl", "serves_properties": ["C02", "C15"], "kind_free_text": "two libp2p nodes, generated write/outage/patch/retry histories, per-step comparison of the peer-store retry bookkeeping with drv repl, final B = A"}]
